@@ -329,7 +329,7 @@ Proof. vm_compute. split; [reflexivity|]. split; [eexists; reflexivity|reflexivi
 
 Lemma pins_ok :
   (pin_parse_range_header, pin_render, pin_render_GET, pin_render_HEAD)
-  = ("488969ddb09469cd", "9aa1cd0cbe4e6eb3", "c70737a82053c8e3", "6809f39ac1d9c28f")%string /\
+  = ("488969ddb09469cd", "9e63d164e15f8e2d", "c70737a82053c8e3", "6809f39ac1d9c28f")%string /\
   (range_unit, content_range_formats, unsatisfiable_status, partial_status)
   = (bytes_of_string "bytes", ["bytes */%s"; "bytes %s-%s/%s"]%string, 416, 206).
 Proof. split; reflexivity. Qed.
